@@ -179,7 +179,7 @@ func main() {
 		if err := wf.save(*out); err != nil {
 			fatal(err)
 		}
-		fmt.Printf("world=%s items=%d values=%d prefixes=%d menu=%d\n", wf.Name, len(wf.Items), len(wf.Values), len(wf.Prefixes), len(wf.Menu))
+		fmt.Printf("world=%s items=%d values=%d prefixes=%d menu=%d repeats=%v\n", wf.Name, len(wf.Items), len(wf.Values), len(wf.Prefixes), len(wf.Menu), wf.Repeats)
 		return
 	}
 
@@ -229,6 +229,10 @@ func main() {
 	total, skipped := 0, 0
 	srcs := map[string]int{}
 	for mi, mode := range strings.Split(*modes, ",") {
+		if mode == "classic" && wf.Repeats {
+			// the describe path de-duplicates repeated attribute values (C07's subject)
+			continue
+		}
 		e, err := newEnv(wf, mode)
 		if err != nil {
 			fatal(fmt.Errorf("building world %s in mode %s: %v", wf.Name, mode, err))
@@ -242,7 +246,7 @@ func main() {
 			}
 		}
 		for _, q := range qs {
-			if mode == "classic" && usesCorpusOnly(q.Tree) {
+			if mode == "classic" && outsideClassic(q.Tree) {
 				skipped++
 				continue
 			}
